@@ -111,6 +111,17 @@ def _items(addr=0):
     FOREIGN = FOREIGN_OFFSET.map(lambda d: (addr + d) % 128)                    # never the own address
     setup_tok = st.just(SETUP_TOKEN)
     good_data = st.builds(rx.data_bytes, st.just(usb2.PID_DATA0), SETUP8)
+    # over-long data packets that BEGIN like a complete CRC-valid packet (what a receiver that stops looking once its
+    # 8+2-byte buffer is full would accept): a CRC-valid packet whose payload is P(k) || crc16(P(k)) || 0..8 more bytes
+    # (k = 8 mostly, sometimes 0..7), and a complete CRC-valid k-byte packet with 1..6 trailing bytes before rx_active
+    # drops (babble / dribble; the packet as a whole then has a bad CRC16 unless the tail happens to fix it up -- the
+    # oracle re-parses the literal bytes either way).
+    PREFIX = st.one_of(SETUP8, SETUP8, SETUP8, st.lists(rx.BYTE, min_size=0, max_size=7))
+    TAIL = st.one_of(st.sampled_from([[0], [0xFF], [0, 0], [0xFF, 0xFF]]), st.lists(rx.BYTE, min_size=1, max_size=6))
+    overlong_embedded = st.builds(
+        lambda pid, p, more: rx.data_bytes(pid, list(p) + rx.data_bytes(pid, p)[-2:] + more),
+        st.just(usb2.PID_DATA0), PREFIX, st.one_of(st.just([]), st.lists(rx.BYTE, min_size=0, max_size=8)))
+    overlong_trailing = st.builds(lambda pid, p, tail: rx.data_bytes(pid, p) + tail, st.just(usb2.PID_DATA0), PREFIX, TAIL)
     corrupt = st.one_of(
         rx.data_bad_crc(pid=st.just(usb2.PID_DATA0), payload=SETUP8),                       # bad CRC16, 8 bytes
         rx.data_bad_crc(pid=st.just(usb2.PID_DATA0), payload=SETUP8),
@@ -121,6 +132,7 @@ def _items(addr=0):
         rx.garbage(12),
         st.just([]),                                                                        # activation without bytes
         rx.data_bad_crc(payload=rx.payloads(max_len=12, average=5)),
+        overlong_embedded, overlong_embedded, overlong_trailing,
     )
     any_data = st.one_of(good_data, corrupt, rx.data_good(payload=rx.payloads(max_len=12, average=5)))
     own_other_tok = st.builds(rx.token_bytes, st.sampled_from([usb2.PID_IN, usb2.PID_OUT, usb2.PID_PING]), st.just(addr), rx.ENDP)
@@ -207,7 +219,8 @@ class SetupDecoder(Sub):
     budget = {"quick": 8000, "thorough": 100000}
     rule = ("USBSetupDecoder(standalone) at FS and HS fed 0..10 generated items followed by a final valid SETUP transaction; "
             "items: SETUP+DATA0(8) good; SETUP + corrupt data (CRC16 flipped/swapped, good CRC with 0..7/9..12 bytes, PID+0/1 "
-            "byte, truncated, broken check nibble, garbage, empty activation); lone SETUP token; SETUP+DATA1/2(8); own "
+            "byte, truncated, broken check nibble, garbage, empty activation, over-long packets that begin like a complete valid "
+            "packet: CRC-valid payload P||crc16(P)||0..8 more bytes, or a complete valid packet + 1..6 trailing bytes); lone SETUP token; SETUP+DATA1/2(8); own "
             "IN/OUT/PING (+data); foreign-address tokens (+data, incl. foreign SETUP+8 bytes); handshakes, SOFs, stray data, "
             "SETUP token with bad CRC5; near-miss SETUP tokens (SETUP low nibble with a wrong check nibble / bad CRC5 / foreign "
             "address, and other token PIDs with a wrong check nibble) followed by a valid 8-byte DATA0. Oracle: reference scan of the literal packets: own SETUP token immediately followed "
@@ -292,6 +305,8 @@ class SetupDecoder(Sub):
                     k in ("empty", "badpid") or (k == "other"):
                 corrupt_seen = True
                 labels.add("corrupt:" + k)
+            if len(ev["bytes"]) > 11 and usb2.parse(ev["bytes"][:11])["kind"] == "data":
+                labels.add(f"overlong-with-valid-8-byte-prefix:{k}")     # longer packet that begins like a valid setup data packet
             if k == "token" and p["addr"] == addr:
                 pending_before_token = abandoned_setup
                 abandoned_setup = p["pid"] == usb2.PID_SETUP
